@@ -10,7 +10,7 @@
    ProtocolBuffer<1254>; the model keeps the live window [pos, pos + length buf). *)
 From Coq Require Import NArith List Bool Arith.
 Import ListNotations.
-From LTV.C06 Require Import ParamsGen.
+From LTV.C06 Require Import ParamsProbe.
 
 Definition BUF := Params.c06_buffer_size.
 Definition PADMAX := Params.c06_enc_pad_size.
